@@ -2,12 +2,14 @@ package props
 
 import (
 	"encoding/json"
+	"errors"
 	"fmt"
 	"hash/fnv"
 	"os"
 	"path/filepath"
 
 	bolt "go.etcd.io/bbolt"
+	berrors "go.etcd.io/bbolt/errors"
 	"go.etcd.io/bbolt/xverif/dec"
 	"go.etcd.io/bbolt/xverif/model"
 	"go.etcd.io/bbolt/xverif/sim"
@@ -58,8 +60,18 @@ func (cs crashsim) Gen(prop, tier string, ts *sim.Tapes) *Case {
 			cfg.AllocSize = cfg.PageSize
 		}
 	}
+	sizeLimited := false
+	if t.Chance(1, 5) {
+		// a size limit low enough to be reached: some commits are refused with the size-limit error before they
+		// write anything, the history goes on at the limit (deletes and overwrites still succeed)
+		cfg.MaxSize = cfg.PageSize * (5 + t.Intn(28))
+		sizeLimited = true
+	}
 	prog := work.GenProgram(ts, cfg, p)
 	c := &Case{Prop: prop, Engine: cs.Name(), Tier: tier, Seed: ts.Seed, Run: ts.Run, Prog: prog, Tapes: map[string][]uint64{}, Params: map[string]int{}}
+	if sizeLimited {
+		c.Params["size_limit"] = 1
+	}
 	budget := 300
 	if tier == "thorough" {
 		budget = 3000
@@ -323,7 +335,15 @@ func (cs crashsim) Run(c *Case, dir string) (out *Outcome) {
 			acks = append(acks, ack{to, e.LastTxid})
 		} else {
 			before := e.LastTxid
+			e.TolerateErr = c.Params["size_limit"] > 0 && st.Kind == "tx"
 			e.RunStep(i, st)
+			e.TolerateErr = false
+			if e.LastErr != nil && st.Kind == "tx" {
+				out.fault("commit-refused-at-size-limit", 1)
+				if !errors.Is(e.LastErr, berrors.ErrMaxSizeReached) {
+					e.Viol = append(e.Viol, &work.Violation{Prop: "C18", Class: "wrong-error", Msg: fmt.Sprintf("a commit under MaxSize %d failed with %v", c.Prog.Cfg.MaxSize, e.LastErr)})
+				}
+			}
 			if e.LastTxid != before {
 				acks = append(acks, ack{len(disk.Log), e.LastTxid})
 			}
@@ -607,7 +627,9 @@ func checkCrashState(e *work.Exec, img []byte, spec sim.CrashSpec, acked, inflig
 		out.HarnessErr = err.Error()
 		return nil
 	}
-	r := work.NewExec(rpath, e.Cfg)
+	rcfg := e.Cfg
+	rcfg.MaxSize = 0 // the follow-up transaction is not part of the size-limited history
+	r := work.NewExec(rpath, rcfg)
 	r.Cur = want
 	r.LastTxid = t
 	if ro.ReadOnly {
